@@ -137,7 +137,10 @@ def explore(graph: Graph, init_state, adapter: Adapter, run, *, nproc=None, budg
     _G["adapter"], _G["graph"] = adapter, graph
     rnd = random.Random(seed)
     init = skey(init_state)
-    paths = {init: []}
+    # up to two histories per reached state (both of minimal length): the state abstraction leaves out detail that
+    # must not matter (e.g. whether a directory currently exists); replaying a state's transitions after different
+    # histories is what shows when it does.  Everything below is processed in sorted order: runs are reproducible.
+    paths = {init: [[]]}
     frontier = [init]
     done = 0
     mismatches = 0
@@ -147,10 +150,10 @@ def explore(graph: Graph, init_state, adapter: Adapter, run, *, nproc=None, budg
     with ctxm.Pool(nproc, initializer=_worker_init, initargs=(adapter, graph)) as pool:
         while frontier:
             jobs = []
-            for f in frontier:
-                for lab in graph.labels(f):
+            for f in sorted(frontier):
+                for i, lab in enumerate(sorted(graph.labels(f))):
                     for v in adapter.variants:
-                        jobs.append((f, lab, paths[f], v))
+                        jobs.append((f, lab, paths[f][(i + v) % len(paths[f])], v))
             if budget is not None and done + len(jobs) > budget:
                 # stratified by action name: rare actions are covered first, common ones share the rest
                 keep = max(0, budget - done)
@@ -169,12 +172,20 @@ def explore(graph: Graph, init_state, adapter: Adapter, run, *, nproc=None, budg
                             del groups[name]
                 jobs = picked
             nxt = []
-            for fkey, lab, status, t, detail, variant in pool.imap_unordered(_task, jobs, chunksize=8):
+            pathof = {(j[0], j[1], j[3]): j[2] for j in jobs}
+            results = sorted(pool.imap_unordered(_task, jobs, chunksize=8), key=lambda r: (r[0], r[1], r[5], r[2]))
+            level_new = set()
+            for fkey, lab, status, t, detail, variant in results:
                 done += 1
                 if status == "ok":
                     if t not in paths:
-                        paths[t] = paths[fkey] + [lab]
+                        paths[t] = [pathof[(fkey, lab, variant)] + [lab]]
                         nxt.append(t)
+                        level_new.add(t)
+                    elif t in level_new and len(paths[t]) < 2:
+                        alt = pathof[(fkey, lab, variant)] + [lab]
+                        if alt != paths[t][0]:
+                            paths[t].append(alt)
                     if done % 997 == 0:
                         act, args = json.loads(lab)
                         run.sample({"from": json.loads(fkey), "act": act, "args": args, "to": json.loads(t)})
